@@ -247,6 +247,10 @@ class Program:
             self._unqualify_module_access(m)
         for m in self.modules.values():
             self._index_defs(m)
+        from .renames import undo_renames
+        self.renamed_back = undo_renames(self)
+        from .params import canonical_params
+        self.params_renamed = canonical_params(self)
         self.wrapper_decorators = {}
         self._apply_wrappers()
         from .loops import loops_to_recursion
